@@ -471,6 +471,10 @@ class StmtMixin:
             return v if obj.items is not None else zint(v)
         if obj.kind == 'bool':
             return v if obj.items is not None else zbool(truth(v))
+        if obj.kind == 'ipair':
+            if isinstance(v, tuple) and len(v) == 2 and all(is_int(x) for x in v):
+                return ip_mk(zint(v[0]), zint(v[1]))
+            raise Unsupported('a list of index pairs receives something that is not a pair of integers')
         if obj.kind == 'cset':
             if obj.items is not None:
                 if not isinstance(v, str):
@@ -717,7 +721,7 @@ class StmtMixin:
             if not isinstance(obj, ArrObj) or obj.items is None or obj.shape is not None:
                 continue
             kind = kinds.get(n, obj.kind)
-            if kind not in ('int', 'val', 'bool'):
+            if kind not in ('int', 'val', 'bool', 'ipair'):
                 raise Unsupported('list %s written in a loop needs an element kind (contract kinds=...)' % n)
             o2 = obj.clone(kind=kind)
             o2.arr = self.materialize(o2)
@@ -798,7 +802,7 @@ class StmtMixin:
     def havoc_obj(self, obj, oid):
         if isinstance(obj, RecObj):
             return obj
-        if obj.kind not in ('int', 'val', 'bool', 'cset'):
+        if obj.kind not in ('int', 'val', 'bool', 'cset', 'ipair'):
             if obj.items is not None and not obj.items:
                 raise Unsupported('loop appends to an empty list of unknown element kind '
                                   '(declare the kind in the contract: ghost kinds)')
